@@ -76,7 +76,6 @@ def multi_file(ctx, thorough):
                     for n in fs:
                         implib.write(os.path.join(d, n), POOL5[n])
                     before = implib.tree_snapshot(d)
-                    tmp_before = set(os.listdir(tempfile.gettempdir()))
                     argv = ["--return-code-scheme", scheme]
                     stdin = None
                     if mode == "scan":
@@ -89,15 +88,11 @@ def multi_file(ctx, thorough):
                         argv += ["fix"] + list(fs)
                     (code, out, err), ops = F.record_ops(lambda: vlib.run_main(argv, stdin_text=stdin, cwd=d), d, set(fs))
                     after = implib.tree_snapshot(d)
-                    tmp_after = set(os.listdir(tempfile.gettempdir()))
-                    leaked = sorted(x for x in tmp_after - tmp_before if x.startswith("tmp"))
+                    leaked = [os.path.basename(x) for x in F.record_ops.temps_left]
                     evals += 1
                     case = {"files": list(fs), "mode": mode, "scheme": scheme}
                     if leaked:
                         fails.append((case, "temp-file-left", leaked))
-                        for x in leaked:
-                            try: os.remove(os.path.join(tempfile.gettempdir(), x))
-                            except OSError: pass
                     if mode != "fix":
                         if after != before:
                             fails.append((case, "read-only-command-modified-files", sorted(set(after) ^ set(before)) or "content changed"))
